@@ -63,21 +63,21 @@ theorem default_storage_old_code_fails :
     ((validateOld wSt3 wEnvS wRun0).2 = .ok ∧ (validateOld wSt3 wEnvS wRun0).1.dstor = 2 ∧
       (validate wSt3 wEnvS wRun0).1.dstor = 0) := by decide
 
-/-! ### the process-wide default logger (caddy.Log()) — finding F22
+/-! ### the process-wide default logger (caddy.Log()) — the code before the restoreDefaultLogger fix
 
-Full statement (kept visible):
-  ∀ s c e, (changeTo c e s).2.accepted = false → (changeTo c e s).1.dlogger = s.dlogger
-  ∀ s c e, (validate c e s).1.dlogger = s.dlogger
 openLogs (setupNewDefault) makes the new configuration's default log the process default logger
-before anything else is provisioned, and nothing undoes it when the configuration is not used. -/
+before anything else is provisioned; before the fix nothing undid that when the configuration was
+not used (`runL`, `validateL`: the rollbacks put the default storage back but not the logger). -/
 
-/-- the negation of the full statement: over a running configuration (which owns the default
-    logger: 1), (a) a load rejected while provisioning an app and (b) a successful Validate both
-    leave caddy.Log() at the default log of a configuration that is not running (2) -/
-theorem default_logger_full_fails :
+/-- `default_logger_after_rejected` / `default_logger_after_validate` fail for the code before the
+    fix and hold for the code as it is now: over a running configuration (which owns the default
+    logger: 1), (a) a load rejected while provisioning an app and (b) a successful Validate left
+    caddy.Log() at the default log of a configuration that is not running (old: 2; now: 1) -/
+theorem default_logger_old_code_fails :
     wRun0.dlogger = 1 ∧ wRun0.rawJSON = some wSt0 ∧
-    ((changeTo wSt1 wEnvS wRun0).2 = .errProvision ∧ (changeTo wSt1 wEnvS wRun0).1.dlogger = 2 ∧
-      (changeTo wSt1 wEnvS wRun0).1.rawJSON = some wSt0) ∧
-    ((validate wSt3 wEnvS wRun0).2 = .ok ∧ (validate wSt3 wEnvS wRun0).1.dlogger = 2) := by decide
+    ((runL wRun0.next wSt1 wEnvS wRun0).2.2 = .errProvision ∧ (runL wRun0.next wSt1 wEnvS wRun0).1.dlogger = 2 ∧
+      (run wRun0.next wSt1 wEnvS wRun0).2.2 = .errProvision ∧ (run wRun0.next wSt1 wEnvS wRun0).1.dlogger = 1) ∧
+    ((validateL wSt3 wEnvS wRun0).2 = .ok ∧ (validateL wSt3 wEnvS wRun0).1.dlogger = 2 ∧
+      (validate wSt3 wEnvS wRun0).2 = .ok ∧ (validate wSt3 wEnvS wRun0).1.dlogger = 1) := by decide
 
 end CaddyModel.C01
